@@ -305,6 +305,241 @@ static int add_san(GENERAL_NAMES *gens, char *tok) {
 
 /* vcert namecheck=0|1 cncheck=0|1 servername=<hex|.> connected=<hex host>/<prefixlen>|. hosts=<hex>/<plen>,..|. realm=<hex|.>
          terms=<hex;hex;..|.> cn=<hex,hex|.> san=<entry,entry,..|.|none> */
+
+/* ---- tlsconn: a whole TLS connection through the REAL tlsservernew, up to the attribution to a client block (C14/C15) ----
+   tlsconn <src ipv4> [ca=other] cn=.. san=..  | name=<n> tls=<0|1> hosts=<hex host>/<plen>,.. namecheck= cncheck= terms=..  | name=... ...
+   The blocks are built through the real addhostport()/resolvehostports()/addmatchcertattr(); the TLS contexts through the real
+   tlscreatectx() from a CA, a server certificate and key generated once per process (handed over as /proc/self/fd paths); the peer
+   connects from <src> with a certificate made from the cn=/san= tokens and signed by that CA (or, ca=other, by one nobody trusts). */
+#include <sys/mman.h>
+extern struct list *h_clconfs_swap(struct list *n);
+extern void h_tlsconn_reset(void);
+extern const char *h_tlsconn_attributed(void);
+extern void *h_tlsservernew(void *arg);
+static EVP_PKEY *h_ca_key, *h_other_key, *h_cli_key;
+static X509 *h_ca_cert, *h_other_cert;
+static char h_ca_path[64], h_srvcert_path[64], h_srvkey_path[64];
+static struct tls *h_tlsconfs[2];
+
+static X509 *mk_cert(EVP_PKEY *subjkey, const char *cn, X509 *issuer, EVP_PKEY *issuerkey, int ca, long serial) {
+    X509 *x = X509_new();
+    X509_NAME *nm;
+    X509_set_version(x, 2);
+    ASN1_INTEGER_set(X509_get_serialNumber(x), serial);
+    X509_gmtime_adj(X509_getm_notBefore(x), -3600);
+    X509_gmtime_adj(X509_getm_notAfter(x), 3600L * 24 * 365);
+    X509_set_pubkey(x, subjkey);
+    nm = X509_get_subject_name(x);
+    X509_NAME_add_entry_by_txt(nm, "CN", MBSTRING_ASC, (const unsigned char *)cn, -1, -1, 0);
+    X509_set_issuer_name(x, issuer ? X509_get_subject_name(issuer) : nm);
+    if (ca) {
+        X509_EXTENSION *e = X509V3_EXT_conf_nid(NULL, NULL, NID_basic_constraints, "critical,CA:TRUE");
+        X509_add_ext(x, e, -1);
+        X509_EXTENSION_free(e);
+    }
+    if (!X509_sign(x, issuerkey, EVP_sha256()))
+        return NULL;
+    return x;
+}
+static int pem_to_fd(char *path, size_t n, X509 *x, EVP_PKEY *k) {
+    BIO *b = BIO_new(BIO_s_mem());
+    char *p;
+    long l;
+    int fd = memfd_create("pem", 0);
+    if (x)
+        PEM_write_bio_X509(b, x);
+    else
+        PEM_write_bio_PrivateKey(b, k, NULL, NULL, 0, NULL, NULL);
+    l = BIO_get_mem_data(b, &p);
+    if (fd < 0 || write(fd, p, l) != l)
+        return 0;
+    BIO_free(b);
+    snprintf(path, n, "/proc/self/fd/%d", fd);
+    return 1;
+}
+static int h_tlsconn_init(void) {
+    EVP_PKEY *sk;
+    X509 *sc;
+    int i;
+    if (h_tlsconfs[0])
+        return 1;
+    h_ca_key = EVP_RSA_gen(2048);
+    h_other_key = EVP_RSA_gen(2048);
+    h_cli_key = EVP_RSA_gen(2048);
+    sk = EVP_RSA_gen(2048);
+    if (!h_ca_key || !h_other_key || !h_cli_key || !sk)
+        return 0;
+    h_ca_cert = mk_cert(h_ca_key, "verif CA", NULL, h_ca_key, 1, 1);
+    h_other_cert = mk_cert(h_other_key, "some other CA", NULL, h_other_key, 1, 2);
+    sc = mk_cert(sk, "proxy", h_ca_cert, h_ca_key, 0, 3);
+    if (!h_ca_cert || !h_other_cert || !sc || !pem_to_fd(h_ca_path, sizeof(h_ca_path), h_ca_cert, NULL) ||
+        !pem_to_fd(h_srvcert_path, sizeof(h_srvcert_path), sc, NULL) || !pem_to_fd(h_srvkey_path, sizeof(h_srvkey_path), NULL, sk))
+        return 0;
+    for (i = 0; i < 2; i++) {
+        struct tls *t = (calloc)(1, sizeof(*t));
+        t->name = i ? "ctx1" : "ctx0";
+        t->cacertfile = h_ca_path;
+        t->certfile = h_srvcert_path;
+        t->certkeyfile = h_srvkey_path;
+        t->cacheexpiry = -1;
+        t->tlsminversion = t->tlsmaxversion = t->dtlsminversion = t->dtlsmaxversion = -1;
+        pthread_mutex_init(&t->lock, NULL);
+        h_tlsconfs[i] = t;
+    }
+    return 1;
+}
+/* the tokens of one group (up to the next "|") */
+static int group_end(int argc, char **argv, int from) {
+    int i = from;
+    while (i < argc && strcmp(argv[i], "|"))
+        i++;
+    return i;
+}
+static int op_tlsconn(int argc, char **argv, FILE *out) {
+    struct list *confs, *saved;
+    struct sockaddr_in a, b;
+    socklen_t al = sizeof(a);
+    pthread_t th;
+    SSL_CTX *cctx;
+    SSL *cssl;
+    X509 *x;
+    X509_NAME *nm;
+    char *v, *tok, *save, *tr;
+    const char *att;
+    int g0, g1, l, c, s, *sp, other, len;
+    uint8_t *bb;
+    if (argc < 3 || !h_tlsconn_init())
+        return 0;
+    g0 = 1;
+    g1 = group_end(argc, argv, g0);
+    /* the peer's certificate */
+    other = (v = kv(g1 - g0, argv + g0, "ca")) && !strcmp(v, "other");
+    x = X509_new();
+    X509_set_version(x, 2);
+    ASN1_INTEGER_set(X509_get_serialNumber(x), 77);
+    X509_gmtime_adj(X509_getm_notBefore(x), -3600);
+    X509_gmtime_adj(X509_getm_notAfter(x), 3600L * 24 * 365);
+    X509_set_pubkey(x, h_cli_key);
+    nm = X509_get_subject_name(x);
+    X509_NAME_add_entry_by_txt(nm, "O", MBSTRING_ASC, (const unsigned char *)"verif", -1, -1, 0);
+    if ((v = kv(g1 - g0, argv + g0, "cn")) && strcmp(v, "."))
+        for (tok = strtok_r(v, ",", &save); tok; tok = strtok_r(NULL, ",", &save)) {
+            bb = hx(tok, &len);
+            X509_NAME_add_entry_by_NID(nm, NID_commonName, V_ASN1_UTF8STRING, bb, len, -1, 0);
+            (free)(bb);
+        }
+    if ((v = kv(g1 - g0, argv + g0, "san")) && strcmp(v, "none")) {
+        GENERAL_NAMES *gens = sk_GENERAL_NAME_new_null();
+        if (strcmp(v, "."))
+            for (tok = strtok_r(v, ",", &save); tok; tok = strtok_r(NULL, ",", &save))
+                if (!add_san(gens, tok)) {
+                    fputs("bad-san", out);
+                    return 1;
+                }
+        X509_add1_ext_i2d(x, NID_subject_alt_name, gens, 0, 0);
+        GENERAL_NAMES_free(gens);
+    }
+    X509_set_issuer_name(x, X509_get_subject_name(other ? h_other_cert : h_ca_cert));
+    if (!X509_sign(x, other ? h_other_key : h_ca_key, EVP_sha256()))
+        return 0;
+    /* the client blocks */
+    confs = list_create();
+    while (g1 < argc) {
+        struct clsrvconf *conf = (calloc)(1, sizeof(*conf));
+        char *hostsrc[34];
+        int nh = 0;
+        g0 = g1 + 1;
+        g1 = group_end(argc, argv, g0);
+        conf->name = (v = kv(g1 - g0, argv + g0, "name")) ? (strdup)(v) : "blk";
+        conf->type = RAD_TLS;
+        conf->tlsconf = h_tlsconfs[((v = kv(g1 - g0, argv + g0, "tls")) && atoi(v)) ? 1 : 0];
+        conf->certnamecheck = (v = kv(g1 - g0, argv + g0, "namecheck")) ? atoi(v) : 1;
+        conf->certcncheck = (v = kv(g1 - g0, argv + g0, "cncheck")) ? atoi(v) : 0;
+        conf->clients = list_create();
+        conf->lock = (malloc)(sizeof(pthread_mutex_t));
+        pthread_mutex_init(conf->lock, NULL);
+        if ((v = kv(g1 - g0, argv + g0, "hosts")) && strcmp(v, "."))
+            for (tok = strtok_r(v, ",", &save); tok && nh < 32; tok = strtok_r(NULL, ",", &save)) {
+                char *sl = strchr(tok, '/'), *h, txt[300];
+                *sl = 0;
+                h = hxstr(tok);
+                if (atoi(sl + 1) == 255)
+                    snprintf(txt, sizeof(txt), "%s", h);
+                else
+                    snprintf(txt, sizeof(txt), "%s/%d", h, atoi(sl + 1));
+                hostsrc[nh++] = (strdup)(txt);
+                (free)(h);
+            }
+        hostsrc[nh] = NULL;
+        if (!nh || !addhostport(&conf->hostports, hostsrc, "2083", 1) || !resolvehostports(conf->hostports, AF_UNSPEC, SOCK_STREAM)) {
+            fputs("bad-block", out);
+            return 1;
+        }
+        if ((v = kv(g1 - g0, argv + g0, "terms")) && strcmp(v, "."))
+            for (tok = strtok_r(v, ";", &save); tok; tok = strtok_r(NULL, ";", &save)) {
+                char *t = hxstr(tok);
+                if (!addmatchcertattr(conf, t)) {
+                    fputs("bad-term", out);
+                    return 1;
+                }
+                (free)(t);
+            }
+        list_push(confs, conf);
+    }
+    /* the connection */
+    l = socket(AF_INET, SOCK_STREAM, 0);
+    memset(&a, 0, sizeof(a));
+    a.sin_family = AF_INET;
+    a.sin_addr.s_addr = htonl(INADDR_LOOPBACK);
+    if (l < 0 || bind(l, (struct sockaddr *)&a, sizeof(a)) || listen(l, 1) || getsockname(l, (struct sockaddr *)&a, &al))
+        return 0;
+    c = socket(AF_INET, SOCK_STREAM, 0);
+    memset(&b, 0, sizeof(b));
+    b.sin_family = AF_INET;
+    if (c < 0 || inet_pton(AF_INET, argv[0], &b.sin_addr) != 1 || bind(c, (struct sockaddr *)&b, sizeof(b)) || connect(c, (struct sockaddr *)&a, sizeof(a)))
+        return 0;
+    s = accept(l, NULL, NULL);
+    close(l);
+    if (s < 0)
+        return 0;
+    saved = h_clconfs_swap(confs);
+    h_tlsconn_reset();
+    tr = h_transcript_take();
+    (free)(tr);
+    sp = (malloc)(sizeof(int));
+    *sp = s;
+    if (pthread_create(&th, NULL, h_tlsservernew, sp))
+        return 0;
+    cctx = SSL_CTX_new(TLS_client_method());
+    SSL_CTX_set_verify(cctx, SSL_VERIFY_NONE, NULL);
+    SSL_CTX_use_certificate(cctx, x);
+    SSL_CTX_use_PrivateKey(cctx, h_cli_key);
+    cssl = SSL_new(cctx);
+    SSL_set_fd(cssl, c);
+    if (SSL_connect(cssl) == 1) {
+        char tmp[16];
+        SSL_read(cssl, tmp, sizeof(tmp)); /* until the proxy closes (or refuses) the connection */
+    }
+    pthread_join(th, NULL);
+    SSL_free(cssl);
+    SSL_CTX_free(cctx);
+    close(c);
+    ERR_clear_error();
+    h_clconfs_swap(saved);
+    att = h_tlsconn_attributed();
+    fputs("tlsconn ", out);
+    if (att) {
+        fputs("attributed:", out);
+        fputs(att, out);
+    } else
+        fputs("none", out);
+    tr = h_transcript_take();
+    fprintf(out, " ##%s", tr);
+    (free)(tr);
+    X509_free(x);
+    return 1;
+}
+
 int h_tls_op(const char *op, int argc, char **argv, FILE *out) {
     struct clsrvconf conf;
     struct hostportres hpc, *hpcp = NULL;
@@ -315,6 +550,8 @@ int h_tls_op(const char *op, int argc, char **argv, FILE *out) {
     uint8_t *b;
     if (!strcmp(op, "tlsstream"))
         return op_tlsstream(argc, argv, out);
+    if (!strcmp(op, "tlsconn"))
+        return op_tlsconn(argc, argv, out);
     if (strcmp(op, "vcert"))
         return 0;
     memset(&conf, 0, sizeof(conf));
